@@ -256,12 +256,13 @@ def gen_accepted(rng, idx):
         src["mut.T"] = ("class Ma(NilA, ConsA(Mb)) {\n  method tag(): int = match (this) { NilA -> 0, ConsA(_) -> 1 }\n}\n"
                         "class Mb(NilB, ConsB(Ma)) {\n  method tag(): int = match (this) { NilB -> 0, ConsB(_) -> 1 }\n}\n"
                         "class Mc(OnlyC(Mb)) {\n  method tag(): int = match (this) { OnlyC(b) -> b.tag() + 2 }\n}\n"
-                        "class Mx(OnlyX(My)) {\n  method depth(): int = match (this) { OnlyX(y) -> y.depth() + 1 }\n}\n"
+                        "class Mx(OnlyX(My)) {\n  function mk(): Mx = Mx.OnlyX(My.NilY())\n  method depth(): int = match (this) { OnlyX(y) -> y.depth() + 1 }\n}\n"
                         "class My(NilY, ConsY(Mx)) {\n  method depth(): int = match (this) { NilY -> 0, ConsY(x) -> x.depth() + 1 }\n}\n")
-        src["mut.Side"] = ("import { Ma, Mb, Mc, Mx, My } from mut.T;\nclass Main {\n  function main(): unit = { let y = My.ConsY(Mx.OnlyX(My.NilY())); let _ = Process.println(Str.fromInt(y.depth())); let c = Mc.OnlyC(Mb.NilB()); let b = Mb.ConsB(Ma.NilA()); "
+        src["mut.Side"] = ("import { Ma, Mb, Mc, Mx, My } from mut.T;\nclass Main {\n  function main(): unit = { let x0 = Mx.mk(); let _ = Process.println(Str.fromInt(x0.depth())); let y = My.ConsY(Mx.OnlyX(My.NilY())); let _ = Process.println(Str.fromInt(y.depth())); let c = Mc.OnlyC(Mb.NilB()); let b = Mb.ConsB(Ma.NilA()); "
                            "let a = Ma.ConsA(Mb.NilB()); let _ = Process.println(Str.fromInt(b.tag() + a.tag() + c.tag())); }\n}\n")
         extra_imports.append("import { Ma, Mb, Mc, Mx, My } from mut.T;")
-        extra_calls.append(" Process.println(Str.fromInt(Mx.OnlyX(My.ConsY(Mx.OnlyX(My.NilY()))).depth()));")
+        # the entry main mentions My first, the side main Mx first (Mx.mk()): opposite demand orders
+        extra_calls.append(" Process.println(Str.fromInt(My.NilY().depth())); Process.println(Str.fromInt(Mx.OnlyX(My.ConsY(Mx.mk())).depth()));")
         extra_calls.append(" Process.println(Str.fromInt(Ma.ConsA(Mb.NilB()).tag() * 10 + Mb.ConsB(Ma.NilA()).tag()));"
                            " Process.println(Str.fromInt(Mc.OnlyC(Mb.ConsB(Ma.NilA())).tag()));")
     main = scopegen.main_class(p)
@@ -525,6 +526,11 @@ def compare(ctx, prog, answers, orders, stats):
             stats["mir0_equal" if eq0 else ("mir0_differs_multicapture" if mc else "mir0_differs")] += 1
             stats["mir1_equal" if eq1 else ("mir1_differs_multicapture" if mc else "mir1_differs")] += 1
             stats["traces"] += len(with_mir)
+        lay = {tuple(variant_lines(a["mir0"])) for a in with_mir}
+        if len(lay) > 1:
+            # enum layouts (by type name) must be the same in every process, multi-capture or not
+            return ("enum layouts differ between processes (same behaviour on this program)",
+                    classify_behaviour_diff(ctx, prog, answers))
         if not eq0 and not mc:
             lay = {tuple(variant_lines(a["mir0"])) for a in with_mir}
             f = classify_behaviour_diff(ctx, prog, answers)
